@@ -527,6 +527,7 @@ class SimReadHandle(io.BufferedReader):
         self._hid = hid
         self._pos = 0
         self._sim_closed = False
+        self._real = None
 
     @property
     def name(self):
@@ -641,9 +642,32 @@ class SimReadHandle(io.BufferedReader):
 
     def close(self):
         self._sim_closed = True
+        self._drop_real()
+
+    def _drop_real(self):
+        f, self._real = self._real, None
+        if f is not None:
+            try:
+                self._fs.fds.pop(f.fileno(), None)
+                f.close()
+            except Exception:
+                pass
 
     def fileno(self):
-        return self._fs.fd_of(self)
+        """A real descriptor on an unnamed temporary copy of the image, created on first use: consumers outside the
+        seam (numpy.fromfile, mmap, C extensions) see the true bytes; the library's own os.* calls on it are still
+        served - and logged - by the simulated OS."""
+        if self._sim_closed:
+            raise ValueError('I/O operation on closed file')
+        if self._real is None:
+            import tempfile
+            f = tempfile.TemporaryFile(prefix='verif_fd_')
+            f.write(bytes(self._data()))
+            f.flush()
+            f.seek(self._pos)
+            self._real = f
+            self._fs.fds[f.fileno()] = self
+        return self._real.fileno()
 
     def __enter__(self):
         return self
@@ -653,7 +677,10 @@ class SimReadHandle(io.BufferedReader):
         return False
 
     def __del__(self):
-        pass
+        try:
+            self._drop_real()
+        except Exception:
+            pass
 
     def __repr__(self):
         return f"<SimReadHandle name={self._path!r}>"
